@@ -390,7 +390,8 @@ sp_sgemv(char *trans, float alpha, SuperMatrix *A, float *x,
     
     /* Test the input parameters */
     info = 0;
-    if ( !notran && strncmp(trans, "T", 1)!=0 && strncmp(trans, "C", 1)!=0 )
+    if ( !notran && strncmp(trans, "T", 1)!=0 && strncmp(trans, "t", 1)!=0 &&
+	 strncmp(trans, "C", 1)!=0 && strncmp(trans, "c", 1)!=0 )
         info = 1;
     else if ( A->nrow < 0 || A->ncol < 0 ) info = 3;
     else if (incx == 0) info = 5;
@@ -406,7 +407,7 @@ sp_sgemv(char *trans, float alpha, SuperMatrix *A, float *x,
 
     /* Set  LENX  and  LENY, the lengths of the vectors x and y, and set 
        up the start points in  X  and  Y. */
-    if (strncmp(trans, "N", 1)==0) {
+    if ( notran ) {
 	lenx = A->ncol;
 	leny = A->nrow;
     } else {
